@@ -15,7 +15,7 @@ from ..fa import FA
 from ..loader import AnalysisError
 from .valeq import check_typed_identity, check_json_bytes, check_enum_distinct
 from .ladders import extract_ladder, check_ladder_order, repo_subclass_pairs
-from .fresh import flow_nodes, alternatives, value_cases, param_rooted, return_cases, at_of, attr_writes
+from .fresh import flow_nodes, alternatives, value_cases, param_rooted, return_cases, at_of, attr_writes, guarded_cases
 
 MC = "serialization.MementoCodec"
 
@@ -347,39 +347,6 @@ def _site_args(fa: FA, call, params):
     return out
 
 
-def _guarded_cases(fa: FA, e, at, lits=(), _seen=None):
-    """[(case, cfg node, literals)]: the values `e` may hold, each with the literals of the conditional
-    expressions / `or` chains that select it; a local bound by plain assignments (or still holding a parameter)
-    stands for what was assigned.  case = ('param', name) for a parameter, else ('expr', node)."""
-    seen = _seen if _seen is not None else set()
-    lits = tuple(lits)
-    if isinstance(e, ast.IfExp):
-        return _guarded_cases(fa, e.body, at, lits + tuple(fa._atoms(e.test, at, True)), seen) + \
-            _guarded_cases(fa, e.orelse, at, lits + tuple(fa._atoms(e.test, at, False)), seen)
-    if isinstance(e, ast.BoolOp) and isinstance(e.op, ast.Or):
-        out, neg = [], ()
-        for i, v in enumerate(e.values):
-            last = i == len(e.values) - 1
-            out += _guarded_cases(fa, v, at, lits + neg + (() if last else tuple(fa._atoms(v, at, True))), seen)
-            neg += tuple(fa._atoms(v, at, False))
-        return out
-    if isinstance(e, ast.Name) and fa.df.is_local(e.id):
-        defs = fa.df.reaching(at, e.id)
-        if defs and all(d.kind == "param" or (d.kind == "assign" and d.value is not None) for d in defs):
-            out = []
-            for d in defs:
-                if d.kind == "param":
-                    out.append((("param", d.name), at, lits))
-                    continue
-                key = (d.node, d.name)
-                if key in seen:
-                    continue
-                seen.add(key)
-                out += _guarded_cases(fa, d.value, d.node, lits, seen)
-            return out
-    return [(("expr", e), at, lits)]
-
-
 def _carried(fa: FA, value, at, param):
     """Does the value handed on at a site carry what the function received as `param`: every value it may
     hold is computed from the parameter, except stand-ins used only where the parameter is absent (None / empty).
@@ -397,7 +364,7 @@ def _carried(fa: FA, value, at, param):
             memo[node_id] = bool(conds) and all(c & absent for c in conds)
         return memo[node_id]
 
-    for (case, a_, lits) in _guarded_cases(fa, value, at):
+    for (case, a_, lits) in guarded_cases(fa, value, at):
         if case[0] == "param":
             if case[1] == param:
                 derived += 1
